@@ -1,9 +1,10 @@
-(* C13 - Base64, hexadecimal and XOR decodings are bit-exact.  Statements pinned from Proofs/Base64Proofs.v, Proofs/HexProofs.v, Proofs/B64HexProofs.v by harness/mkprop.py.  Known finding F11 (HEX_RE alternation order) concerns span SELECTION by the regex engine, not these codec laws.  The converse for the CALL FORMS is now proved end to end (round-trip theorems below); for the bare base64 / hex forms (validity heuristics) it remains exercised. *)
+(* C13 - Base64, hexadecimal and XOR decodings are bit-exact.  Statements pinned from Proofs/Base64Proofs.v, Proofs/HexProofs.v, Proofs/B64HexProofs.v by harness/mkprop.py.  Known finding F11 (HEX_RE alternation order) concerns span SELECTION by the regex engine, not these codec laws.  The converse for the CALL FORMS is now proved end to end (round-trip theorems below); for the bare base64 / hex forms it is proved too (RoundTrip4: lower / upper hex with the F11 hypothesis made exact, base64 incl. LF / CR LF wrapping); character-reference line separators remain exercised. *)
 From MD Require Import Lib.Base Model.Node Model.Codec.Base64 Model.Codec.Hex Model.Dec.ReLib Model.Dec.B64Hex.
 From MD Require Import Proofs.Base64Proofs Proofs.HexProofs Proofs.B64HexProofs.
 From MD Require Generated.Consts.
 From MD Require Import Regex.Syntax Generated.Regexes Proofs.Shapes1 Proofs.Shapes2.
 From MD Require Import Regex.LocalityProofs Proofs.RoundTrip.
+From MD Require Import Proofs.RoundTrip2 Proofs.RoundTrip4.
 
 (* RFC 4648: decode (encode p) = p for every payload (all lengths mod 3) *)
 Theorem C13_b64_roundtrip : forall p : bytes, wf_bytes p -> b64_decode_strict (b64_encode p) = Some p.
@@ -178,6 +179,36 @@ Print Assumptions C13_neutral_prefix_is_quiet.
 Theorem C13_form_is_matched : forall (r : re) (ng : nat) (pre form suf : list N) (n : nat) (cf : Z -> Backtrack.caps -> Backtrack.caps), startable r = true -> (spine r <= Backtrack.default_fuel)%nat -> neutral r pre = true -> runs n r form suf cf -> (n <= Backtrack.default_fuel)%nat -> form <> [] -> fi r ng (pre ++ form ++ suf) = Hang \/ (exists rest : list Backtrack.mtch, fi r ng (pre ++ form ++ suf) = Ok (Backtrack.mk_mtch ng (blen pre) (blen pre + blen form) (cf (blen pre) []) :: rest) /\ Forall (fun mt : Backtrack.mtch => blen pre + blen form <= m_start mt 0) rest).
 Proof. exact fi_form_neutral. Qed.
 Print Assumptions C13_form_is_matched.
+
+(* CONVERSE HALF, BARE FORMS (Proofs/RoundTrip4.v): a lower-case hex run of >= 10 pairs after a neutral prefix, not continued by a same-case pair, is decoded as ONE node covering exactly the run *)
+Theorem C13_hex_lower_roundtrip : forall (pre : list N) (p suf : bytes), wf_bytes p -> (10 <= Datatypes.length p)%nat -> hex_stop_lower suf = true -> (Datatypes.length (hexlify p) + 64 <= Backtrack.default_fuel)%nat -> neutral RE_hex_HEX_RE pre = true -> let form := hexlify p in let data := pre ++ form ++ suf in find_hex data = Hang \/ (exists rest : list node, find_hex data = Ok (Node [] p DEC_HEX (blen pre) (blen pre + blen form) [] :: rest) /\ Forall (fun nd : node => blen pre + blen form <= n_st nd) rest).
+Proof. exact find_hex_roundtrip_lower. Qed.
+Print Assumptions C13_hex_lower_roundtrip.
+
+(* upper-case spelling: the EXACT extra hypothesis (a letter among the first 20 characters) that separates it from the known finding F11 *)
+Theorem C13_hex_upper_roundtrip : forall (pre : list N) (p suf : bytes), wf_bytes p -> (10 <= Datatypes.length p)%nat -> hex_stop_upper suf = true -> upper_has_letter (upper (hexlify p)) = true -> (Datatypes.length (hexlify p) + 64 <= Backtrack.default_fuel)%nat -> neutral RE_hex_HEX_RE pre = true -> let form := upper (hexlify p) in let data := pre ++ form ++ suf in find_hex data = Hang \/ (exists rest : list node, find_hex data = Ok (Node [] p DEC_HEX (blen pre) (blen pre + blen form) [] :: rest) /\ Forall (fun nd : node => blen pre + blen form <= n_st nd) rest).
+Proof. exact find_hex_roundtrip_upper. Qed.
+Print Assumptions C13_hex_upper_roundtrip.
+
+(* ... and without it the statement is false (the known finding, proved about the model) *)
+Theorem C13_F11_is_exact : let p := [48%N; 49%N; 50%N; 51%N; 52%N; 53%N; 54%N; 55%N; 56%N; 57%N; 171%N] in let pre := s2b "x = " in let suf := s2b "; y" in let form := upper (hexlify p) in let data := pre ++ form ++ suf in wf_bytes p /\ (10 <= Datatypes.length p)%nat /\ hex_stop_upper suf = true /\ neutral RE_hex_HEX_RE pre = true /\ upper_has_letter form = false /\ ~ (find_hex data = Hang \/ (exists rest : list node, find_hex data = Ok (Node [] p DEC_HEX (blen pre) (blen pre + blen form) [] :: rest) /\ Forall (fun nd : node => blen pre + blen form <= n_st nd) rest)).
+Proof. exact rt4_F11_counterexample. Qed.
+Print Assumptions C13_F11_is_exact.
+
+(* bare RFC 4648 text meeting the acceptance rules (as the boolean b64_acceptable), payload of at least 16 bytes, not continued by an alphabet / padding / separator byte *)
+Theorem C13_base64_roundtrip : forall (pre : list N) (p suf : bytes), wf_bytes p -> (16 <= Datatypes.length p)%nat -> b64_acceptable (b64_encode p) = true -> b64_stop suf = true -> (Datatypes.length (b64_encode p) + 64 <= Backtrack.default_fuel)%nat -> neutral RE_base64_BASE64_RE pre = true -> let form := b64_encode p in let data := pre ++ form ++ suf in find_base64 data = Hang \/ (exists rest : list node, find_base64 data = Ok (Node [] p ENC_B64 (blen pre) (blen pre + blen form) [] :: rest) /\ Forall (fun nd : node => blen pre + blen form <= n_st nd) rest).
+Proof. exact find_base64_roundtrip. Qed.
+Print Assumptions C13_base64_roundtrip.
+
+(* the 16-byte minimum is needed: a 15-byte payload is not found although its encoding is acceptable *)
+Theorem C13_base64_min_length : let p := s2b "Hello, World!12" in let pre := s2b "$_ = '" in let suf := s2b "';" in let form := b64_encode p in let data := pre ++ form ++ suf in wf_bytes p /\ Datatypes.length p = 15%nat /\ b64_acceptable form = true /\ b64_stop suf = true /\ neutral RE_base64_BASE64_RE pre = true /\ ~ (find_base64 data = Hang \/ (exists rest : list node, find_base64 data = Ok (Node [] p ENC_B64 (blen pre) (blen pre + blen form) [] :: rest) /\ Forall (fun nd : node => blen pre + blen form <= n_st nd) rest)).
+Proof. exact rt4_b64_min_length_counterexample. Qed.
+Print Assumptions C13_base64_min_length.
+
+(* line-wrapped (LF / CR LF) encodings: one node spanning the line breaks *)
+Theorem C13_base64_wrapped_roundtrip : forall (pre : list N) (p : bytes) (ls : list (list N * list N)) (lm pad : list N) (suf : bytes), wf_bytes p -> lines_ok ls -> forallb is_b64_char lm = true -> pad_ok pad -> b64_encode p = concat (map fst ls) ++ lm ++ pad -> (4 * (5 - Datatypes.length ls) + 2 <= Datatypes.length lm)%nat -> b64_acceptable (b64_encode p) = true -> b64_stop suf = true -> let form := wtext ls lm ++ pad in (Datatypes.length form + 100 <= Backtrack.default_fuel)%nat -> neutral RE_base64_BASE64_RE pre = true -> let data := pre ++ form ++ suf in find_base64 data = Hang \/ (exists rest : list node, find_base64 data = Ok (Node [] p ENC_B64 (blen pre) (blen pre + blen form) [] :: rest) /\ Forall (fun nd : node => blen pre + blen form <= n_st nd) rest).
+Proof. exact find_base64_roundtrip_wrapped. Qed.
+Print Assumptions C13_base64_wrapped_roundtrip.
 
 Theorem C13_min_chars_tied : MIN_B64_CHARS = Generated.Consts.G_MIN_B64_CHARS.
 Proof. reflexivity. Qed.
